@@ -34,6 +34,7 @@ EXPLANATION = (
     "and compared with the grammar automata (acceptance, SyntaxError, no internal error, propositions / hedges / terms / operators built, "
     "terms taken from the proposition's own variable); Rule.parse stays on the extracted state machine"
     "; the variable and rule-block importers are interpreted on two-line model blocks (every key x six values) with the value parsers, helpers and property setters: imported or rejected with a syntax / value / lookup error (X9)"
+    "; X9 malformed-rule - a rule block whose rule the parser rejects is rejected, for the newline and for a custom separator; loading leaves the text of an antecedent / consequent as it was"
 )
 ASSUMPTIONS = [
     "token classes are disjoint (a token is not at once a keyword, a variable name, a hedge name and a term name)",
